@@ -42,6 +42,7 @@ type Unit struct {
 	closureLit *ast.FuncLit
 	caseExits []*State
 	unreachable bool
+	wfDone map[string]bool
 	casePanicBase int
 	siteN   map[token.Pos]int
 	inlineDepth int
@@ -72,6 +73,7 @@ func (u *Unit) initialHeap(name, sort string) Term {
 	u.decls = append(u.decls, fmt.Sprintf("(declare-const %s %s)", nm, sort))
 	t := Term{S: nm, Sort: sort}
 	u.inits[name] = t
+	u.nonFreshAxioms(nm, sort)
 	if u.entry != nil {
 		if _, ok := u.entry.heaps[name]; !ok {
 			u.entry.heaps[name] = t
@@ -523,6 +525,12 @@ func (u *Unit) execDesignatedCase(n *ast.SwitchStmt, st *State, f Flow) {
 		return
 	}
 	pos := u.caseClause.Colon + 1
+	if ctx := u.g.C.byID[b.Target+"/context"]; ctx != nil {
+		for _, c := range ctx.clauses("requires") {
+			ce := u.specEv(cs, pos)
+			cs.assume(ce.evSpec(c.Text).S)
+		}
+	}
 	for _, c := range b.clauses("requires") {
 		ce := u.specEv(cs, pos)
 		cs.assume(ce.evSpec(c.Text).S)
@@ -943,4 +951,64 @@ func sortedVarNames(m map[string]Term) []string {
 	}
 	sort.Strings(ks)
 	return ks
+}
+
+// refComponents lists the reference-valued components of a term of Go type t.
+func (g *Gen) refComponents(term string, t types.Type, bv bool, depth int) []string {
+	if depth > 3 || t == nil {
+		return nil
+	}
+	switch g.namedName(t) {
+	case "Type", "pos", "stringT":
+		return nil
+	}
+	switch u := t.Underlying().(type) {
+	case *types.Pointer, *types.Map, *types.Signature:
+		return []string{term}
+	case *types.Slice:
+		return []string{app("sarr", term)}
+	case *types.Interface:
+		return []string{app("oref", term)}
+	case *types.Struct:
+		var out []string
+		sname := g.structName(t, bv)
+		for i := 0; i < u.NumFields(); i++ {
+			f := u.Field(i)
+			out = append(out, g.refComponents(app(g.fieldAcc(sname, f.Name()), term), f.Type(), bv, depth+1)...)
+		}
+		return out
+	}
+	return nil
+}
+
+// nonFreshAxioms: references stored in an initial heap are not freshly allocated in this unit.
+func (u *Unit) nonFreshAxioms(heap, sort string) {
+	g := u.g
+	g.Pre.add("(declare-fun fresh$ (Int) Bool)")
+	inner := ""
+	two := false
+	if strings.HasPrefix(sort, "(Array Int (Array Int ") {
+		inner = strings.TrimSuffix(strings.TrimPrefix(sort, "(Array Int (Array Int "), "))")
+		two = true
+	} else if strings.HasPrefix(sort, "(Array Int ") {
+		inner = strings.TrimSuffix(strings.TrimPrefix(sort, "(Array Int "), ")")
+	} else {
+		return
+	}
+	gt, ok := g.sortGoType[inner]
+	if !ok {
+		return
+	}
+	var sel string
+	var binder string
+	if two {
+		sel = fmt.Sprintf("(select (select %s a) i)", heap)
+		binder = "(a Int) (i Int)"
+	} else {
+		sel = fmt.Sprintf("(select %s a)", heap)
+		binder = "(a Int)"
+	}
+	for _, c := range g.refComponents(sel, gt, u.bv, 0) {
+		u.defs = append(u.defs, fmt.Sprintf("(forall (%s) (! (not (fresh$ %s)) :pattern (%s)))", binder, c, c))
+	}
 }
